@@ -134,6 +134,39 @@ func runC14(c *core.Ctx) error {
 	}
 	c.Set("method_name_catalogue_states", len(catStims))
 
+	// 1c. exhaustive core configurations that cover the recursive / masked / dictionary shapes (A) and
+	// template declaration + instantiation with names differing only by namespace (B) deterministically
+	var coreStims []mSchema
+	for ci, consts := range []map[string]string{
+		c14CfgF(1, 2, `{"a"}`, "MCNameMenuOne", "MCFieldNamesTiny", "MCKindsCore", "{0}", `{}`, "MCMutationsNone", `{"plain"}`, `{"get"}`),
+		c14CfgF(2, 1, `{"a", "b"}`, "MCNameMenuOne", "MCFieldNamesTiny", "MCKindsTmpl", "{0}", `{}`, "MCMutationsNone", `{"plain"}`, `{}`),
+	} {
+		r, err := c.MustTLC(core.TLCOpts{Module: "MC_SchemaSpace", Cfg: "MC_SchemaSpace.cfg", Workers: 4, Timeout: 5 * time.Minute, Consts: consts})
+		if err != nil {
+			return err
+		}
+		c.Add("states", r.Distinct)
+		c.Add("transitions", r.Generated)
+		var pool []mSchema
+		for _, raw := range r.Emits {
+			var m mSchema
+			if err := json.Unmarshal(raw, &m); err != nil {
+				return err
+			}
+			if len(m.Schema) == 0 || seen[schemaKey(&m)] {
+				continue
+			}
+			seen[schemaKey(&m)] = true
+			pool = append(pool, m)
+		}
+		rng.Shuffle(len(pool), func(i, j int) { pool[i], pool[j] = pool[j], pool[i] })
+		if ci == 1 && !c.Thorough() && len(pool) > 80 {
+			pool = pool[:80]
+		}
+		coreStims = append(coreStims, pool...)
+	}
+	c.Set("core_configurations_states", len(coreStims))
+
 	// 2. seeded simulation above them; TLC evaluates the Emit invariant on every successor of
 	// the random walks, so each walk contributes its whole neighbourhood
 	strata := map[string][]mSchema{}
@@ -213,6 +246,9 @@ func runC14(c *core.Ctx) error {
 	}
 	for _, m := range catStims {
 		stims = append(stims, &c14Stim{M: m, Src: "catalogue"})
+	}
+	for _, m := range coreStims {
+		stims = append(stims, &c14Stim{M: m, Src: "core"})
 	}
 	nExh := len(stims)
 	var stKeys []string
